@@ -131,6 +131,10 @@ def judge_table(case, part):
                 source = path
             results[(data_format, storage)] = run_rows(cid, source)
     part.validated += len(results) - 1
+    for key, value in results.items():
+        if any(event[0] == "FOREIGN" for event in value):
+            # all storage formats failing alike would satisfy the differential oracle: an ending that is no cutplace error is wrong by itself
+            part.fail("data-storage|data=%s,cid=%s|run-ended-with-a-foreign-error" % key, case, "rows, rejections or a cutplace error", value)
     reference_key = ("delimited", "csv")
     reference = results[reference_key]
     for event in reference:
@@ -138,7 +142,7 @@ def judge_table(case, part):
     for key, value in results.items():
         if value != reference:
             what = "verdicts-differ" if [e[0] for e in value] != [e[0] for e in reference] else "values-or-locations-differ"
-            part.fail("data-storage|data=%s,cid=%s|%s" % (key[0], key[1], what), case, reference, value)
+            part.fail("data-storage%s|data=%s,cid=%s|%s" % (":" + case["what"] if case.get("what") else "", key[0], key[1], what), case, reference, value)
 
 
 def judge(case, part):
@@ -171,6 +175,18 @@ def tables_for(fields, count):
     marked = [list(base_rows[0]), list(base_rows[1])]
     marked[0][0] = "\ufeff" + marked[0][0]
     tables.append((marked, True))
+    # cells with blanks in front or behind: part of the cell in every storage format (only fixed-width data are padded)
+    for column in range(len(fields)):
+        for padded in (base_rows[1][column] + " ", " " + base_rows[1][column], "  " + base_rows[1][column] + "  "):
+            table = [list(base_rows[0]), list(base_rows[1]), list(base_rows[2])]
+            table[1][column] = padded
+            tables.append((table, True))
+    tables.append(([list(base_rows[0]), [" "] + list(base_rows[1][1:]), ["   "] * len(fields)], True))  # blank-only cells
+    # a date-only cell followed by the text ' 00:00:00' (what an Excel *date* cell renders as): as a text cell it is the same text in every storage format
+    if "day" in fields:
+        table = [list(base_rows[0]), list(base_rows[1]), list(base_rows[2])]
+        table[1][fields.index("day")] = base_rows[1][fields.index("day")] + " 00:00:00"
+        tables.append((table, "midnight-suffix"))
     # a row of empty cells only between other rows: a row like any other in every storage format
     tables.append(([list(base_rows[0]), [""] * len(fields), list(base_rows[1])], True))
     if len(fields) >= 3:
@@ -206,8 +222,8 @@ def run(ctx):
         cases.append({"kind": "cid", "rows": base["rows"]})
     table_count = 0
     for index, fields in enumerate(FIELD_SETS):
-        for number, (table, has_rejects) in enumerate(tables_for(fields, 25 if quick else 80)):
-            cases.append({"kind": "table", "fields": fields, "table": table, "sheet": 1 + (index + number) % 2, "has_rejects": has_rejects, "number": number})
+        for number, (table, has_rejects) in enumerate(tables_for(fields, 40 if quick else 120)):
+            cases.append({"kind": "table", "fields": fields, "table": table, "sheet": 1 + (index + number) % 2, "has_rejects": bool(has_rejects), "number": number, "what": has_rejects if isinstance(has_rejects, str) else ""})
             table_count += 1
     ctx.pmap(MOD, "work", engine.chunks(cases, 8), label="C17")
     ctx.bound = {"CIDs": len(cases) - table_count, "tables": table_count, "combinations per table": "3 data formats x 3 CID storages = 9", "sheets": "data on sheet 1 or 2 with the matching Sheet property"}
